@@ -14,6 +14,7 @@ from .. import arr as A
 from ..report import Finding
 from .common import *
 from .equiv import *
+from .convspec import option_box
 
 
 def worker(job):
@@ -135,6 +136,12 @@ def run(ctx):
                         if D == 3 and not th and (padding not in ("TORUS", "SAME") or (ld is not None and flags != (True, False, True))):
                             continue
                         jobs.append((ctx.repo, D, N, M, ki, kf, pi, pf, flags, padding, rd, ld, (5,) if th else ()))
+    # the option box shared by C01 / C04 / C06 / C11 (symmetric paddings, unit stride: the statement's scope)
+    for D in (2, 3) if th else (2,):
+        Nb = (3, 4) if D == 2 else (2, 3, 4)
+        for padding, stride, rd, ld, flags in option_box(D, Nb, symmetric_only=True, unit_stride=True):
+            rdt = (rd,) * D if isinstance(rd, int) else tuple(rd)
+            jobs.append((ctx.repo, D, Nb, (3,) * D, 1, 1, 0, 1, flags, padding, rdt, ld, ()))
     by = {}
     for job, r in ctx.pairs(worker, jobs):
         cfg = r["cfg"]
